@@ -44,8 +44,9 @@ impl Slot {
 
     /// Returns a double-ended iterator that yields all the slots in the window `self` is in.
     pub fn slots_in_window(self) -> impl DoubleEndedIterator<Item = Slot> {
-        let start = self.first_slot_in_window();
-        (start.0..start.0 + SLOTS_PER_WINDOW).map(Self)
+        // NOTE: offsets are added individually, `start + SLOTS_PER_WINDOW` overflows in the last window
+        let start = self.first_slot_in_window().0;
+        (0..SLOTS_PER_WINDOW).map(move |i| Self(start + i))
     }
 
     /// Returns an infinite iterator that yields all the slots after `self`.
